@@ -50,10 +50,10 @@ def cases(ctx):
     for kind, size in (('upload-path', 700_000), ('upload-seekable', 700_000), ('upload-nonseekable', 700_000),
                        ('upload-path', 11 * MB), ('upload-nonseekable', 11 * MB),
                        ('download-path', 700_000), ('download-path', 9 * MB), ('download-nonseekable', 9 * MB)):
-        for life in ('plain', 'pre', 'sign', 'chunked', 'pre+chunked'):
+        for life in ('plain', 'pre', 'sign', 'sign+resend', 'chunked', 'pre+chunked'):
             if kind.startswith('download') and life != 'plain':
                 continue
-            if not ctx.thorough() and size > MB and life in ('sign', 'pre+chunked'):
+            if not ctx.thorough() and size > MB and life in ('sign', 'sign+resend', 'pre+chunked'):
                 continue
             out.append({'kind': kind, 'size': size, 'life': life})
     return out
@@ -80,6 +80,11 @@ def run_case(case):
             d['sign_reads'] = [1 << 20] * (size // (1 << 20) + 2)
         if 'chunked' in life:
             d['chunked'] = True
+        if 'resend' in life:
+            # the first send is cut half way (a 5xx / connection reset), botocore rewinds the body,
+            # signs again (reads it again) and re-sends
+            d['resends'] = 1
+            d['resend_after'] = [size // 2]
         return d
     client.body_script = body_script
     charged = []          # (phase, amount)
